@@ -193,3 +193,8 @@ Definition writetxt (shf : fl -> string) (d q : ascii) (is_2d : bool) (t : table
   bind (map_res (map_res (fun v => cell_text shf (pyv_of_val v))) rows) (fun body =>
   Ok (to_str (render (k_writer_delimiter d q) (k_writer_quotechar d q) (to_chars k_lineterminator)
                      (map (map to_chars) (hdr :: body))))))).
+
+(* writetxt(dm): the guard reads dm.is_2d, which inspects the column objects of the table
+   (cols: every column with its depth attribute when it has one -- Base/CsvPy.v colobj) *)
+Definition writetxt_dm (shf : fl -> string) (d q : ascii) (cols : list (string * colobj)) (t : table) : res string :=
+  writetxt shf d q (k_is_2d cols) t.
